@@ -11,6 +11,7 @@
 -/
 import Desync.Proofs.ArchiveProofs
 import Desync.Proofs.ArchiveChildren
+import Desync.Proofs.LocalFSDecFacts
 
 namespace Desync.C18
 open Desync
@@ -81,6 +82,29 @@ theorem nothing_after_nondir_root (a : ArchDec) (o : Option Node) (a' : ArchDec)
 theorem only_first_is_root (b : Bytes) (nodes : List Node) (h : untar b = .ok nodes) :
     ∀ n ∈ nodes.tail, n.name ≠ [dot] :=
   untar_tail_ne_dot b nodes h
+
+/-! ### the file-system level: `UnTar` onto `LocalFS` over a POSIX file system with symbolic links -/
+
+/-- **Nothing outside the destination changes.**  `LFS.untarFS` is `UnTar` driving the `LocalFS`
+    writer (`Model/LocalFS.lean`: path resolution that follows symbolic links, the system calls of
+    localfs.go in their order, partial effects of a failing method kept).  For every archive byte
+    stream, every option set and every initial file system whose destination path lies below real
+    directories and is not itself a symbolic link — hostile links *inside* the destination allowed —
+    every object not at or beneath the destination is unchanged; the one exception is the
+    modification time of the destination's parent directory when the destination itself is created
+    or replaced.  This is the statement the two defects fixed by 866e492 and cf2b761 violated. -/
+theorem unpacking_changes_nothing_outside (o : LFS.Opts) (root : List LFS.Name) (fs : LFS.FS) (b : Bytes)
+    (h : LFS.RootOK fs root) :
+    ∀ p : LFS.RPath, ¬ (root <+: p) →
+      (p ≠ root.dropLast → ((LFS.untarFS o root fs b).1).get p = fs.get p) ∧
+      (p = root.dropLast →
+        ∃ a m m', fs.get p = some (.dir a m) ∧ ((LFS.untarFS o root fs b).1).get p = some (.dir a m') ∨
+          ((LFS.untarFS o root fs b).1).get p = fs.get p) :=
+  LFS.untar_fs_frame o root fs b h
+
+/-- non-vacuity: a destination holding a hostile link satisfies the hypothesis (and an archive does
+    write beneath it: `LFS.Example` in `Proofs/LocalFSProofs.lean`) -/
+example : LFS.RootOK LFS.Example.fsA LFS.Example.root := LFS.Example.rootOK_A
 
 /-! non-vacuity: "..", "a/b" and "" are not valid names; "ok" is -/
 example : validName [dot, dot] = false ∧ validName [97, slash, 98] = false ∧ validName [] = false ∧
